@@ -166,6 +166,9 @@ type Pather struct {
 	Bind map[ssa.Value]ssa.Value
 }
 
+// Fn is the function whose values the Pather renders.
+func (p *Pather) Fn() *ssa.Function { return p.fn }
+
 // Deref follows Bind.
 func (p *Pather) Deref(v ssa.Value) ssa.Value {
 	for i := 0; i < 8 && p.Bind != nil; i++ {
